@@ -16,6 +16,9 @@ func fsmSpecFor(c *Ctx, fn string) (fsmSpec, bool) {
 		return fsmSpec{fn: f, stateFld: "state", constName: stateConstsOf(c, fn, "ci")}, true
 	case "ParseUIntVal":
 		return fsmSpec{fn: f, stateFld: "state", constName: stateConstsOf(c, fn, "cl")}, true
+	case "SkipQuoted", "skipLWS":
+		// stateless scanners: one pseudo state
+		return fsmSpec{fn: f, stateVar: "none", constName: map[int64]string{0: "scan"}}, true
 	case "ParseHdrLine":
 		m := stateConstsOf(c, fn, "h")
 		for k, v := range m {
